@@ -302,9 +302,14 @@ def run_shard(spec, R):
             ok, scd = R.guarded("solve", lambda: solve(method, (s1, s2), l1, mob, extra={"L": cc * 1.0}))
             if ok and not scd[1].get("vf_degenerate"):
                 R.check(abs(scd[0] - cc * d0) <= tol * cc * sc, "scaling_linear", {**desc, "law": "mass x c with L x c (Bregman)", "scaled": scd[0], "c_times_base": cc * d0}, group=grp)
-            # NOTE: with a fixed penalty L the Bregman iteration is not scale-equivariant and its stopping
-            # criteria (small increments) are no error bound, so no sound tolerance exists for comparing two
-            # such runs; that comparison was removed (see DESIGN.md, false alarms).
+            # ... and with the penalty left as it is (what a user gets who only rescales the masses): the property states
+            # linear scaling "converged or not"; the fixed-penalty iteration is not scale-equivariant before convergence,
+            # which is recorded as a finding of its own (the law with L scaled along, above, stays the regression oracle)
+            ok, scf = R.guarded("solve", lambda: solve(method, (s1, s2), l1, mob))
+            if ok and not scf[1].get("vf_degenerate"):
+                R.check(abs(scf[0] - cc * d0) <= tol * cc * sc, "scaling_linear", {**desc, "law": "mass x c with the penalty L unchanged (Bregman)", "scaled": scf[0], "c_times_base": cc * d0,
+                                                                                   "relative_deviation": (scf[0] - cc * d0) / (cc * sc)},
+                        key="C05:bregman_fixed_penalty_not_mass_equivariant_before_convergence", group=grp + "/fixed_L")
         # constant cell weight
         wimg = weight_image(shape, h, cw)
         if method == "newton":
